@@ -88,7 +88,7 @@ def execute(case):
         for (p, sf), (_, uf) in zip(srcs, ress):
             unit = {"path": p, "e": [[c, proj.proj_payload(q)] for c, q in zip(sf.coords, sf.payloads)], "act": act_of(sf),
                     "shape": proj._shape(sf.getShape(all_ranks=False)), "ncoords": len(sf.coords), "res": [], "unsplit": 0}
-            if uf.payloads and not all(isinstance(q, Fiber) and proj.proj_fiber(q)["k"] == "F" and depth_of(q) == depth_of(sf) for q in uf.payloads):
+            if sf.coords and proj.strip(proj.proj_fiber(uf)) == proj.strip(proj.proj_fiber(sf)):
                 unit["unsplit"] = 1          # this fiber was not replaced by an upper/lower pair
                 out["units"].append(unit)
                 continue
